@@ -183,6 +183,8 @@ class Runner:
         self.last_state = None
         self.listener_cmds = case.get("listener_cmds", {})
         self.listener_fired = {}
+        self.cmd_steps = {}
+        self.cmd_clock = {}
 
     # -- values ------------------------------------------------------------
     def tv(self, x):
@@ -323,10 +325,16 @@ class Runner:
 
     # -- commands ----------------------------------------------------------
     def snapshot(self):
+        """Harness read of the observable state; not pre-emptible."""
         sim = self.sim
-        return (sim._run_state.name, sim._replication_state.name,
-                _num(sim._simulator_time), _num(sim._run_until_time),
-                sim._run_until_including, sim.eventlist().size())
+        det = self.hist.det
+        det.atomic += 1
+        try:
+            return (sim._run_state.name, sim._replication_state.name,
+                    _num(sim._simulator_time), _num(sim._run_until_time),
+                    sim._run_until_including, sim.eventlist().size())
+        finally:
+            det.atomic -= 1
 
     def _call(self, cmd):
         sim = self.sim
@@ -382,8 +390,11 @@ class Runner:
         label = "%s#%d" % (name, i)
         lt = det.current
         prev = lt.cmd
+        self.watch(det, lt)
         lt.cmd = label
         before = self.snapshot()
+        self.cmd_steps[i] = [det.step, None]
+        self.cmd_clock[i] = [det.clock, None]
         H.append(("cmd", i, name, "invoke", lt.id, before))
         try:
             self._call(cmd)
@@ -395,7 +406,10 @@ class Runner:
         except Exception as e:
             out = "exc:" + type(e).__name__
         finally:
+            self.watch(det, lt)
             lt.cmd = prev
+        self.cmd_steps[i][1] = det.step
+        self.cmd_clock[i][1] = det.clock
         H.append(("cmd", i, name, "return", lt.id, out, self.snapshot()))
         return out
 
@@ -410,8 +424,11 @@ class Runner:
         name = cmd[0]
         lt = det.current
         prev = lt.cmd
+        self.watch(det, lt)
         lt.cmd = "%s#%d@%s" % (name, i, where)
         before = self.snapshot()
+        self.cmd_steps[i] = [det.step, None]
+        self.cmd_clock[i] = [det.clock, None]
         H.append(("cmd", i, name, "invoke", lt.id, before, where, prev))
         try:
             self._call(list(cmd))
@@ -423,7 +440,10 @@ class Runner:
         except Exception as e:
             out = "exc:" + type(e).__name__
         finally:
+            self.watch(det, lt)
             lt.cmd = prev
+        self.cmd_steps[i][1] = det.step
+        self.cmd_clock[i][1] = det.clock
         H.append(("cmd", i, name, "return", lt.id, out, self.snapshot(),
                   where))
         return out
